@@ -36,9 +36,10 @@ func runC09(c *Ctx) {
 		r := c.Rng("print", i)
 		o := JGenOpts{MaxAccounts: r.Range(2, 7), MaxDays: r.Range(1, 6), Unicode: true, BaseDay: 737000 + r.Intn(1500), SpanDays: Pick(r, []int{0, 3, 30, 200}),
 			ManyDecimals: r.Chance(1, 2), Mutate: r.Chance(1, 12), Accruals: r.Chance(1, 3)}
-		if r.Chance(1, 3) {
-			o.Prices, o.Valuation = true, "CHF"
+		if r.Chance(1, 2) {
+			o.Prices, o.Valuation, o.DupPrices = true, "CHF", true
 		}
+		o.CaseVariants = true
 		j, tags := GenJournal(r, o)
 		text, _ := j.Text()
 		f := GenBalFlags(r, j, o.Valuation, BalGenOpts{Valued: true})
